@@ -22,17 +22,22 @@ ENGINES = {
               '13': 'truncation closed a request', '14': 'crash while a request is outstanding',
               '15': 'coverage judged on a completed request', '16': 'coverage judged on an outstanding request that progressed',
               '17': 'a refresh re-assigned the client', '18': 'a record emitted twice', '19': 'timing case with n > burst',
-              '20': 'several partitions active at once', '21': 'main and recovery events in one case', '22': 'straggler ahead of the client position emitted'},
+              '20': 'several partitions active at once', '21': 'main and recovery events in one case', '22': 'straggler ahead of the client position emitted', '23': 'owner stopped while blocked on an emission', '24': 'unrestricted straggler on the grid / beyond to delivered (F11 exposure)'},
         trusted_base=_TB,
         assumptions=['the recovery client is an oracle: after Assign (p,a) it delivers a, a+1, ... in order; stale records are either below its '
                      'position (Stale op) or stragglers of the previous assignment AHEAD of it (Ahead op: inside the active window and not a multiple of '
                      'updateRequestEvery - a straggler on the broadcast grid or beyond to makes the current code broadcast progress / close the request '
-                     'ahead of what was recovered); arbitrary records (RawRec) only in the safety clauses',
+                     'ahead of what was recovered); arbitrary records (RawRec) only in the safety clauses; unrestricted stragglers (Wild op, ~12% of scenario cases) are inside the '
+                     'coverage guard but outside C07_cover_partial: losses confined to the offsets they put at risk are the open known finding F11 '
+                     '(detail [4 ..]), any other loss is a violation',
                      'updateRequestEvery (5*rate records) is overridden through SetUpdateEveryV so that progress broadcasts happen within small cases',
                      'processError: a failing watermark query is generated only as "every query of this call fails" (with several active partitions a '
                      'single failing query makes the processed subset depend on Go map order); map iterations are canonicalised by partition',
                      'a crash = the instance is discarded, a new one receives the last payload per key of all messages sent so far (compaction), '
                      'is told its partitions and refreshes; undecodable payloads are not kept on the topic',
+                     'RecCrash: the next record is delivered with the source channel full; the handler is taken to be blocked on the send once the limiter '
+                     'was consulted and neither waits nor sent messages changed for 30 ms (a handler that neither returns nor reaches the send within 3 s is '
+                     'reported as an error observation); the blocked goroutine is leaked and the instance abandoned like in a crash',
                      'logic cases build the limiter with rate 1e9 so that Wait never sleeps; waits are counted through the context passed to Wait'],
         shards=8,
     ),
@@ -48,7 +53,9 @@ PROPS = {
                                'included) and every op of every history; completion (mark complete, broadcast, immediate refresh); truncation per '
                                'partition (close when low >= to, else from := low; other error codes ignored); coverage for ALL histories of fresh/stale '
                                'records, several partitions, refreshes, revocations, truncations and crashes: every retained record of (from, to] is '
-                               'emitted once the request completes (C07_cover_partial).  The full coverage clause [from, to) is REFUTED on the faithful '
+                               'emitted once the request completes (C07_cover_partial).  With UNRESTRICTED stragglers of an earlier assignment (on the progress grid / beyond to) coverage fails inside the window '
+                               '(C07_straggler_refuted, open known finding F11: failures confined to the offsets such a straggler put at risk).  '
+                               'The full coverage clause [from, to) is REFUTED on the faithful '
                                'model (C07_cover_full_refuted: request (10,20) emits 11..20) - open known finding F6.  Model tied to the code on every run '
                                'by a correspondence check (real RecoveryConsumer/KafkaConsumer over scripted clients vs extracted model, per-op observables).',
                     level_note='Proved: the theorems above (closed under the global context).  NOT proved: soundness of the decision procedure spec_c07 '
